@@ -1099,6 +1099,50 @@ def rule_id_attr(model):
                       '<dtml-tree id="..."> these ids name no node of the '
                       'rendered tree (expand_all shows nothing expanded)',
                       node=c, ctx=g)
+    # the id that was read is the id, whatever its truth value: 0 and ''
+    # are ids like any other (nodes numbered from 0) -- the value of the id
+    # attribute does not pass through `or` / a truth test on its way out
+    ex = model.func('TreeTag', 'extract_id')
+    idvars = set()
+    m_ = 0
+    for x in own_nodes(ex.node):
+        if isinstance(x, ast.Assign) and isinstance(
+                x.targets[0], ast.Name) and any(
+                isinstance(c, ast.Call) and
+                norm(c.func).split('.')[-1] == 'try_call_attr'
+                for c in ast.walk(x.value)):
+            idvars.add(x.targets[0].id)
+
+    def carries(e):
+        return any((isinstance(c, ast.Call) and
+                    norm(c.func).split('.')[-1] == 'try_call_attr') or
+                   (isinstance(c, ast.Name) and c.id in idvars)
+                   for c in ast.walk(e))
+    for x in own_nodes(ex.node):
+        bad = None
+        if isinstance(x, ast.BoolOp) and any(carries(v)
+                                             for v in x.values[:-1]):
+            bad = x
+        elif isinstance(x, (ast.If, ast.IfExp, ast.While)):
+            t = x.test
+            tt = t.operand if isinstance(t, ast.UnaryOp) and isinstance(
+                t.op, ast.Not) else t
+            if isinstance(tt, ast.Name) and tt.id in idvars:
+                bad = t
+        if isinstance(x, ast.Return) and x.value is not None and \
+                carries(x.value):
+            m_ += 1
+        if bad is not None:
+            r.instance(ex.where, bad, 'ID FILTERED BY TRUTH VALUE')
+            r.finding(ex.where, bad, 'the id read from the id attribute is '
+                      'tested for truth: a node whose id is 0 or an empty '
+                      'string gets a made-up id (its persistent id or '
+                      'memory address) that differs from request to '
+                      'request, so the stored state no longer names it',
+                      node=bad, ctx=ex)
+    if m_ < 1:
+        raise AnalysisError('C20.R9: extract_id does not return the value '
+                            'of the id attribute any more')
     if n < 3:
         raise AnalysisError(f'C20.R9: only {n} extract_id calls found')
     r.floor = 3
@@ -1158,6 +1202,64 @@ def rule_sibling_scope(model):
                           'branch (or equals an ancestor\'s) is treated as '
                           'already seen and left out of the state',
                           node=x, ctx=fi)
+        # the same through a helper closed over a table: a nested function
+        # handed down the recursion that fills and consults a dictionary
+        # keyed by the node id
+        for g in [h for h in fi.module.funcs.values() if h.parent is fi]:
+            if not any(isinstance(a, ast.Name) and a.id == g.node.name
+                       for c in rec_calls
+                       for a in list(c.args) + [k.value for k in c.keywords]):
+                continue
+            glocals = set(g.params()) | {
+                x.id for x in own_nodes(g.node)
+                if isinstance(x, ast.Name) and isinstance(x.ctx, ast.Store)}
+            filled = set()
+            for x in own_nodes(g.node):
+                if isinstance(x, ast.Subscript) and isinstance(
+                        x.ctx, ast.Store) and isinstance(
+                        x.value, ast.Name) and x.value.id not in glocals:
+                    filled.add(x.value.id)
+                if isinstance(x, ast.Call) and isinstance(
+                        x.func, ast.Attribute) and x.func.attr in (
+                        'setdefault', 'update', 'add', 'append') and \
+                        isinstance(x.func.value, ast.Name) and \
+                        x.func.value.id not in glocals:
+                    filled.add(x.func.value.id)
+
+            def by_id(e, depth=0):
+                if any(isinstance(y, ast.Call) and
+                       norm(y.func).split('.')[-1] in ('extract_id',
+                                                       'try_call_attr')
+                       for y in ast.walk(e)):
+                    return True
+                if isinstance(e, ast.Name) and depth < 2:
+                    return any(isinstance(d, ast.AST) and by_id(d, depth + 1)
+                               for d in model.local_defs(g, e.id))
+                return False
+            for x in own_nodes(g.node):
+                tbl = key = None
+                if isinstance(x, ast.Subscript) and isinstance(
+                        x.ctx, ast.Load) and isinstance(x.value, ast.Name):
+                    tbl, key = x.value.id, x.slice
+                elif isinstance(x, ast.Compare) and len(x.ops) == 1 and \
+                        isinstance(x.ops[0], (ast.In, ast.NotIn)) and \
+                        isinstance(x.comparators[0], ast.Name):
+                    tbl, key = x.comparators[0].id, x.left
+                elif isinstance(x, ast.Call) and isinstance(
+                        x.func, ast.Attribute) and x.func.attr in (
+                        'get', 'setdefault') and isinstance(
+                        x.func.value, ast.Name) and x.args:
+                    tbl, key = x.func.value.id, x.args[0]
+                if tbl in filled and key is not None and by_id(key):
+                    r.instance(g.where, x, 'TABLE KEYED BY NODE ID SPANS '
+                               'THE WALK')
+                    r.finding(g.where, x, f'`{tbl}` is filled and consulted '
+                              f'by {g.node.name}(), which is handed down the '
+                              'whole walk of the tree, under the node id: '
+                              'ids only distinguish siblings, so a node '
+                              'whose id occurred in another branch is '
+                              'answered with that other node\'s data '
+                              '(children, openness)', node=x, ctx=g)
     if n < 2:
         raise AnalysisError(f'C20.R11: only {n} recursive tree functions '
                             'found')
@@ -1179,7 +1281,111 @@ def rule_fresh_state(model):
     return r
 
 
-RULES_PLAIN = [rule_mirror, rule_chunks, rule_encoder_twins, rule_cleanup_loop, rule_link_agreement, rule_path_stack, rule_apply_diff, rule_expand_all_isolation, rule_id_attr, rule_fresh_state, rule_sibling_scope]
+class _VS(BaseState):
+    def __init__(self, kind='NONE'):
+        self.kind = kind
+
+    def key(self):
+        return (self.kind,)
+
+    def copy(self):
+        n = _VS(self.kind)
+        n.trace = self.trace
+        return n
+
+
+class _StateOriginDomain(Domain):
+    """Where does the expansion state come from when a click is applied
+    to it: built for this tree (FRESH), taken from the request (DECODED),
+    or taken from the request and checked to be about this tree
+    (VALIDATED)?"""
+
+    def __init__(self, var):
+        self.var = var
+        self.applied = {}
+
+    def _is_root_test(self, t):
+        return isinstance(t, ast.Compare) and len(t.ops) == 1 and any(
+            isinstance(y, ast.Subscript) and isinstance(
+                y.value, ast.Subscript) and norm(y.value.value) == self.var
+            for y in [t.left] + t.comparators)
+
+    def raises(self, node, st):
+        out = []
+        for x in ast.walk(node):
+            if isinstance(x, ast.Subscript) and isinstance(x.ctx, ast.Load):
+                out += ['IndexError', 'KeyError']
+            elif isinstance(x, ast.Call):
+                out.append('*')
+        return sorted(set(out))
+
+    def branch(self, test, st):
+        if self._is_root_test(test):
+            ok = st.copy()
+            ok.kind = 'VALIDATED' if st.kind == 'DECODED' else st.kind
+            neq = isinstance(test.ops[0], ast.NotEq)
+            return [(neq, st), (not neq, ok)]
+        return [(True, st), (False, st)]
+
+    def effects(self, stmt, st):
+        for c in ast.walk(stmt):
+            if isinstance(c, ast.Call) and \
+                    norm(c.func).split('.')[-1] == 'apply_diff' and c.args \
+                    and norm(c.args[0]) == self.var:
+                rec = self.applied.setdefault(id(c), [c, set()])
+                rec[1].add(st.kind)
+        if isinstance(stmt, ast.Assign) and any(
+                isinstance(t, ast.Name) and t.id == self.var
+                for t in stmt.targets):
+            v = stmt.value
+            st = st.copy()
+            if isinstance(v, (ast.Tuple, ast.List)):
+                st.kind = 'FRESH'
+            elif isinstance(v, ast.Call) and self.var in [
+                    norm(a) for a in v.args]:
+                pass                      # state = decode_seq(state)
+            elif isinstance(v, ast.Name) and v.id == self.var:
+                pass
+            else:
+                st.kind = 'DECODED'
+        return st
+
+
+def rule_state_checked_first(model):
+    r = RuleResult('C20.R12', 'a click is applied to a state that is about '
+                   'THIS tree: where the state came in with the request '
+                   '(cookie), the test that its root is this tree\'s root -- '
+                   'and its replacement by a fresh state otherwise -- comes '
+                   'before the expand / collapse diff is applied, on every '
+                   'path')
+    fi = model.func('TreeTag', 'tpRender')
+    calls = [c for c in own_nodes(fi.node) if isinstance(c, ast.Call)
+             and norm(c.func).split('.')[-1] == 'apply_diff' and c.args
+             and isinstance(c.args[0], ast.Name)]
+    if not calls:
+        raise AnalysisError('C20.R12: apply_diff calls not found in '
+                            'tpRender')
+    var = calls[0].args[0].id
+    dom = _StateOriginDomain(var)
+    it = Interp(dom, max_states=200000)
+    it.run(fi.node, _VS())
+    if it.overflow:
+        raise AnalysisError('C20.R12: state budget exceeded in tpRender')
+    if not dom.applied:
+        raise AnalysisError('C20.R12: no apply_diff call was reached')
+    for c, kinds in dom.applied.values():
+        bad = 'DECODED' in kinds
+        r.instance(fi.where, c, 'applied to: ' + '/'.join(sorted(kinds)))
+        if bad:
+            r.finding(fi.where, c, 'the click is applied to a state taken '
+                      'from the request before it was checked to belong to '
+                      'this tree: with a cookie written by another tree the '
+                      'click lands in that foreign state and is thrown away '
+                      'with it when the check follows', node=c, ctx=fi)
+    return r
+
+
+RULES_PLAIN = [rule_state_checked_first, rule_mirror, rule_chunks, rule_encoder_twins, rule_cleanup_loop, rule_link_agreement, rule_path_stack, rule_apply_diff, rule_expand_all_isolation, rule_id_attr, rule_fresh_state, rule_sibling_scope]
 RULES = [_inl(r_) for r_ in RULES_PLAIN] if INLINED_VIEW else RULES_PLAIN
 EXPLANATION = (
     'Stage extraction of the encoder and decoder pipelines and comparison '
